@@ -335,6 +335,7 @@ def iter_vals(interp, env, w):
 
 
 def run(ctx):
+    ctx.guard("C11.DRV", "operators execute through their driver", lambda: __import__("initspec").check_delegations(ctx, "C11", 10))
     ctx.guard("C11.R7", "dense ranks", lambda: r7_reverse_rank(ctx))
     ctx.guard("C11.R6", "`better` is the numeric order of the objective values (ties incl. -0.0 / +0.0 are ties)", lambda: __import__("c09").r3_total_order(ctx, "C11.R6"))
     ctx.guard("C11.K17", "constructor fidelity", lambda: __import__("ctor").check_for(ctx, "C11", 28))
